@@ -12,6 +12,13 @@ def is_field(e, name):
     return isinstance(e, tuple) and len(e) == 3 and e[0] == "field" and e[2] == name
 
 
+def is_field_nt(e, name):
+    """is_field, looking through newtype wrappers: `x.name`, `x.name.0`, `x.name.0.0` (a private tuple struct around the value)"""
+    while isinstance(e, tuple) and len(e) == 3 and e[0] == "field" and e[2] != name and re.match(r"^\d+$", str(e[2])):
+        e = e[1]
+    return is_field(e, name)
+
+
 def has_field(e, name):
     return contains(e, lambda x: is_field(x, name))
 
@@ -285,3 +292,95 @@ def element_iterator(g, P, elem_expr_raw):
             walk(y)
     walk(elem_expr_raw)
     return found[0] if found else None
+
+
+# --------------------------------------------------------------------------------------
+# may-sources of a value: looks through inlined callees that build their result in several places, mutable locals with several
+# whole-value stores, and the pass-through combinators of Option / Result
+# --------------------------------------------------------------------------------------
+_PASS_OK = re.compile(r"(Result::<T, E>|Option::<T>)::(map_err|inspect_err|inspect|or_else|ok_or|ok_or_else|context|with_context|"
+                      r"as_ref|as_mut|cloned|copied)$|ErrorContextExt.*::context$")
+_MAP = re.compile(r"(Result::<T, E>|Option::<T>)::map$")
+
+
+def _defs_exprs(g, inst, local):
+    out = []
+    for d in g.prog.defs(inst.key).get(local, []):
+        if d[0] == "s":
+            st = inst.body["blocks"][d[1]]["stmts"][d[2]]
+            if st["k"] == "assign" and not st["p"]["proj"]:
+                out.append(g.prov_rvalue(inst, st["rv"], (inst.id, d[1], d[2])))
+        else:
+            t = inst.body["blocks"][d[1]]["term"]
+            if not t["dest"]["proj"]:
+                out.append(g.prov_call(inst, d[1]))
+    return out
+
+
+def ok_sources(g, e, depth=0):
+    """payload expressions the Ok / Some variant of the Result / Option value e may carry"""
+    if depth > 14 or not isinstance(e, tuple) or not e:
+        return {("okval", e)}
+    h = e[0]
+    if h == "agg" and len(e) > 3 and e[2] in ("Ok", "Some") and e[3]:
+        return {e[3][0]}
+    if h == "agg" and len(e) > 3 and e[2] in ("Err", "None"):
+        return set()
+    if h in ("err_of", "residual", "errval"):
+        return set()
+    if h == "ret" and len(e) > 3:
+        sub = g.callee_inst.get(e[3])
+        if sub is not None:
+            out = set()
+            for x in _defs_exprs(g, sub, 0):
+                out |= ok_sources(g, x, depth + 1)
+            return out
+    if h == "var":
+        out = set()
+        for x in _defs_exprs(g, g.insts[e[1]], e[2]):
+            out |= ok_sources(g, x, depth + 1)
+        return out or {("okval", e)}
+    if h == "call" and len(e) > 2 and e[2]:
+        if _PASS_OK.search(e[1]):
+            return ok_sources(g, e[2][0], depth + 1)
+        if _MAP.search(e[1]) and len(e[2]) > 1 and isinstance(e[2][1], tuple) and e[2][1] and e[2][1][0] == "fn" \
+                and re.search(r"(^|::)Some$", str(e[2][1][1])):
+            return {("agg", "std::option::Option", "Some", (x,)) for x in ok_sources(g, e[2][0], depth + 1)}
+    if h == "okval":
+        out = set()
+        for x in ok_sources(g, e[1], depth + 1):
+            out |= ok_sources(g, x, depth + 1)
+        return out
+    return {("okval", e)}
+
+
+def value_sources(g, e, depth=0):
+    """leaf expressions a value may come from (see ok_sources)"""
+    if depth > 14 or not isinstance(e, tuple) or not e:
+        return {e}
+    h = e[0]
+    if h == "okval":
+        out = set()
+        for x in ok_sources(g, e[1], depth + 1):
+            out |= value_sources(g, x, depth + 1)
+        return out
+    if h == "var":
+        xs = _defs_exprs(g, g.insts[e[1]], e[2])
+        if xs:
+            out = set()
+            for x in xs:
+                out |= value_sources(g, x, depth + 1)
+            return out
+        return {e}
+    if h == "ret" and len(e) > 3:
+        sub = g.callee_inst.get(e[3])
+        if sub is not None:
+            out = set()
+            for x in _defs_exprs(g, sub, 0):
+                out |= value_sources(g, x, depth + 1)
+            return out or {e}
+    if h == "agg" and len(e) > 3 and e[2] == "Some" and str(e[1]).endswith("Option") and e[3]:
+        return {("agg", e[1], "Some", (x,)) for x in value_sources(g, e[3][0], depth + 1)}
+    if h == "field" and isinstance(e[1], tuple) and e[1] and e[1][0] in ("okval", "var", "ret"):
+        return {("field", x, e[2]) for x in value_sources(g, e[1], depth + 1)}
+    return {e}
